@@ -736,7 +736,6 @@ func (tree *MutableTree) UnsetCommitting() {
 // the tree. Returns the hash and new version number.
 func (tree *MutableTree) SaveVersion() ([]byte, int64, error) {
 	version := tree.WorkingVersion()
-	tree.initialVersionSet = false
 
 	exists, err := tree.versionExists(version)
 	if err != nil {
@@ -761,6 +760,7 @@ func (tree *MutableTree) SaveVersion() ([]byte, int64, error) {
 
 		if (existingRoot == nil && tree.root == nil) || (existingRoot != nil && bytes.Equal(existingRoot.hash, newHash)) { // TODO with WorkingHash
 			tree.version = version
+			tree.initialVersionSet = false
 			tree.root = existingRoot
 			tree.ImmutableTree = tree.clone()
 			tree.lastSaved = tree.clone()
@@ -815,6 +815,8 @@ func (tree *MutableTree) SaveVersion() ([]byte, int64, error) {
 
 	tree.ndb.resetLatestVersion(version)
 	tree.version = version
+	// the configured initial version is used up only by a commit that succeeded
+	tree.initialVersionSet = false
 
 	// set new working tree
 	tree.ImmutableTree = tree.clone()
